@@ -1,6 +1,7 @@
 (* Props/C18.v -- property theorems only (proofs in IL/LocProofs.v) *)
 From Coq Require Import ZArith List.
-From Falcon Require Import Base.Res IL.Const IL.Expr IL.Func IL.Loc IL.LocProofs.
+From Falcon Require Import Graph.NMap Graph.Graph Graph.GraphInv Graph.Algo.
+From Falcon Require Import Base.Res IL.Const IL.Expr IL.Func IL.Loc IL.LocProofs Cfg.CfgOps Cfg.Refine Cfg.ReachLink.
 Import ListNotations.
 Local Open Scope Z_scope.
 
@@ -55,6 +56,25 @@ Theorem forward_closure_eq_paths : forall f, cfg_inv (f_cfg f) = true -> forall 
   fclosure f l <-> (valid_loc f l = true /\ on_entry_path f l).
 Proof. exact LocProofs.forward_closure_eq_paths. Qed.
 Print Assumptions forward_closure_eq_paths.
+
+(* 3'. ... and that reachability is the graph library's: for the four-map graph [c] of a
+       ControlFlowGraph ([rel c]: C11's graph_inv + non-negative indices, which holds after every
+       history of operations, ReachLink.history_erel) and a function over its static view, the closure
+       of the entry location under forward = the locations of the blocks in
+       Graph::reachable_vertices(entry) (proved correct against the textbook definition by C11) *)
+Theorem forward_closure_eq_graph_reachable : forall c f en,
+  rel c -> f_cfg f = to_static c -> cfg_inv (f_cfg f) = true -> e_entry c = Some en ->
+  exists s, reachable_vertices (eg c) (zn en) = Ok s /\
+            forall l, fclosure f l <-> (valid_loc f l = true /\ In (zn (loc_block l)) s).
+Proof. exact ReachLink.forward_closure_eq_graph_reachable. Qed.
+Print Assumptions forward_closure_eq_graph_reachable.
+
+Theorem breach_graph_reachable : forall c, rel c -> forall en,
+  e_entry c = Some en -> 0 <= en -> has_block (to_static c) en = true ->
+  exists s, reachable_vertices (eg c) (zn en) = Ok s /\
+            forall b, 0 <= b -> (breach (to_static c) b <-> In (zn b) s).
+Proof. exact ReachLink.breach_graph_reachable. Qed.
+Print Assumptions breach_graph_reachable.
 
 (* 4. owned form, applied to the same or an equal program, is the identity *)
 Theorem apply_from_id : forall p' fi f f' l,
